@@ -24,7 +24,7 @@ SRCS = {
     'flow': 'for i in range(3):  # loop\n    if i:\n        continue  # c\n    t = (i,\n         i + 1)\nwhile t: t = t[1:]  # shrink\nwith a as b, c:\n    pass  # body\n',
 }
 OPS = ['none', 'cross_fields_after', 'cross_fields_into_body', 'cross_fields_foreign', 'cross_fields_body0_is_orelse0', 'expr_new', 'expr_foreign', 'stmt_delete', 'stmt_insert_new', 'stmt_swap_next', 'stmt_duplicate', 'rename', 'const_change', 'op_change', 'stmt_move_to_end',
-       'expr_swap_sibling']
+       'expr_swap_sibling', 'const_same_value_other_type', 'stmt_foreign_popped']
 OTHER = 'o = other(1) + thing\nif ot:\n    oa = 1  # oa\n    ob = 2  # ob\nelse:\n    oc = 3  # oc\n    od = 4  # od\n'
 
 
@@ -62,7 +62,7 @@ def _apply(tree, op, k, other_tree):
         return None
     if op == 'none':
         return set()
-    if op in ('expr_new', 'expr_foreign', 'rename', 'const_change', 'op_change', 'expr_swap_sibling'):
+    if op in ('expr_new', 'expr_foreign', 'rename', 'const_change', 'op_change', 'expr_swap_sibling', 'const_same_value_other_type'):
         ex = _exprs(tree)
         if not (0 <= k < len(ex)):
             return None
@@ -84,6 +84,12 @@ def _apply(tree, op, k, other_tree):
             if not (isinstance(n, ast.Constant) and isinstance(n.value, int)):
                 return None
             n.value = n.value + 100
+            return touched
+        elif op == 'const_same_value_other_type':
+            # 1 -> True, 2 -> 2.0: equal under ==, a different constant for Python
+            if not (isinstance(n, ast.Constant) and type(n.value) is int):
+                return None
+            n.value = bool(n.value) if n.value in (0, 1) else float(n.value)
             return touched
         elif op == 'op_change':
             if not isinstance(n, ast.BinOp):
@@ -114,6 +120,14 @@ def _apply(tree, op, k, other_tree):
         if pp is None or pidx is None:
             return None
         getattr(pp, pname)[pidx:pidx] = [oif.body[0], oif.orelse[1]]
+        return {id(top_of(n) or n)}
+    if op == 'stmt_foreign_popped':
+        # a statement REMOVED from another tree's list (so that tree's remaining statements shifted down) and inserted here
+        oif = other_tree.body[1]
+        pp, pname, pidx = _where(tree, n)
+        if pp is None or pidx is None or len(oif.body) < 2:
+            return None
+        getattr(pp, pname).insert(pidx, oif.body.pop(0))
         return {id(top_of(n) or n)}
     if op == 'cross_fields_body0_is_orelse0':
         if not (isinstance(n, (ast.If, ast.For, ast.While)) and len(n.body) >= 2 and len(n.orelse) >= 1):
@@ -171,7 +185,7 @@ def _mk(key, rounds, o1):
     src = SRCS[key]
     _t = ast.parse(src)
     NS, NE = len(_stmts(_t)) + 2, len(_exprs(_t)) + 4      # ordinals beyond the node counts (plus what one mutation can add) are inapplicable anyway
-    EXPR_OPS = ('expr_new', 'expr_foreign', 'rename', 'const_change', 'op_change', 'expr_swap_sibling')
+    EXPR_OPS = ('expr_new', 'expr_foreign', 'rename', 'const_change', 'op_change', 'expr_swap_sibling', 'const_same_value_other_type')
 
     def fn(k1: int, k2: int, o2: int):
         assume(0 <= o2 < len(OPS) and -1 <= k1 <= 40 and -1 <= k2 <= 40)
